@@ -2,12 +2,17 @@
 C05 — an interrupted pipestance resumes, not redoing finished work.
 PROPERTY THEOREMS ONLY (model: Martian/Sched.lean, lemmas: Proofs/Sched.lean).
 Scope: the default restart path (`Pipestance.Reset` with partial reset +
-`RestartLocalJobs`, local job mode).  `FullStageReset` mode (the whole stage
-directory of a failed node is removed, finished forks included) is NOT modelled.
+`RestartLocalJobs`, local job mode) — `Reach g s`.  `FullStageReset` mode is
+modelled too (`ReachFull g s`, section at the end): there every node that was
+Running or Failed after re-attaching is wiped with everything in it, finished
+chunks and forks included, so `complete_not_reset` is FALSE in that mode by
+design of the code (negative witness `fullreset_wipes_finished_work`); what
+still holds is stated there.
 Job objects = every chunk, and split/join of splitting stages (`jobObj`).
 -/
 import Martian.Sched
 import Proofs.Sched
+import Proofs.SchedTrans
 
 namespace Props.C05
 open Martian.Sched
@@ -22,8 +27,9 @@ theorem complete_not_reset {g : List NodeInfo} {s : State} {o : Obj} (hr : Reach
   intro hc
   have hro := en_reset hen
   unfold resetOk at hro
-  simp only [Bool.and_eq_true, Bool.or_eq_true, beq_iff_eq] at hro
-  rcases hro.2 with ((h | h) | h) | h
+  simp only [reach_full hr, Bool.false_eq_true, if_false, Bool.and_eq_true, Bool.or_eq_true,
+    beq_iff_eq] at hro
+  rcases hro.2.2 with ((h | h) | h) | h
   · rw [hc] at h; cases h
   · rw [hc] at h; cases h
   · rw [hc] at h; cases h
@@ -70,6 +76,45 @@ theorem complete_not_relaunched {g : List NodeInfo} {s : State} {o : Obj} (hr : 
     have := (reach_objsInv hr o).ji hji
     have := (metaState_none hst).2.2.2.2.2
     simp_all
+
+/-! ### `FullStageReset` mode (`Config.FullStageReset`, local job mode) -/
+
+/-- in FullStageReset mode only objects of nodes that were Running or Failed right
+after the re-attach are reset … -/
+theorem fullreset_only_wiped_nodes {g : List NodeInfo} {s : State} {o : Obj}
+    (hr : ReachFull g s) (hen : enabled s (.reset o) = true) :
+    s.phase = .loading ∧ o.n ∈ s.wipedAtLoad := by
+  have h := en_reset hen
+  unfold resetOk at h
+  simp only [reachFull_full hr, if_true, Bool.and_eq_true, beq_iff_eq,
+    List.contains_eq_mem, decide_eq_true_eq] at h
+  exact h
+
+/-- … where that set is computed by `restart` from the directory contents -/
+theorem wipedAtLoad_spec (s : State) (n : Nat) :
+    n ∈ (apply s .restart).wipedAtLoad ↔
+      n < s.nodes.length ∧
+      (nodeState (apply s .restart) n = .failed ∨ nodeState (apply s .restart) n = .running) := by
+  simp only [apply, List.mem_filter, List.mem_range, Bool.or_eq_true, beq_iff_eq]
+  rfl
+
+/-- the submission bookkeeping is mode independent: no double submission within
+an incarnation, and a resubmission only after a reset -/
+theorem fullreset_at_most_once {g : List NodeInfo} {s : State} (hr : ReachFull g s) :
+    s.launches.Nodup ∧
+    ∀ o i j, (o, i) ∈ s.launches → (o, j) ∈ s.launches → i < j →
+      ∃ k, i < k ∧ k ≤ j ∧ (o, k) ∈ s.resets :=
+  ⟨(reachFull_launchInv hr).nodup, (reachFull_launchInv hr).relaunch⟩
+
+/-- Negative witness: in FullStageReset mode a finished chunk of a node that was
+still running when mrp died IS wiped at restart and submitted again. -/
+theorem fullreset_wipes_finished_work :
+    (match replay (initFull [{ kind := .stage, pre := [] }])
+      [.fork 0 0, .nodestate 0 .running, .refresh, .W ⟨0, 0, .split⟩ .complete, .mkchunks 0 0 1,
+       .launch ⟨0, 0, .chunk 0⟩, .joblog ⟨0, 0, .chunk 0⟩, .jobend ⟨0, 0, .chunk 0⟩ .complete,
+       .crash, .restart] with
+    | .ok s => s.dst ⟨0, 0, .chunk 0⟩ == some .complete && enabled s (.reset ⟨0, 0, .chunk 0⟩)
+    | .error _ => false) = true := by decide
 
 /-! ### non-vacuity -/
 
